@@ -78,6 +78,7 @@ def save(
 
         for name in data.dtype.names:
             fp.write(np.uint64(data[name].size * data[name].itemsize))
-            fp.write(data[name].ravel("F"))
+            # the header declares the machine's byte order
+            fp.write(data[name].ravel("F").astype(data[name].dtype.newbyteorder("=")))
 
         fp.write(("</AppendedData>\n" "</VTKFile>").encode())
